@@ -205,7 +205,7 @@ def run(out):
             out.sample({'input': t['src'], 'language': lang, 'outcomes': [[c['cfg'], c['kind'], c['pos']] for c in t['calls']][:5]})
     # one validation run over all recorded traces (batched by validate_traces)
     slim = [{'tid': t['tid'], 'len': t['len'], 'calls': [{'kind': c['kind'], 'pos': c['pos']} for c in t['calls']]} for t in alltraces]
-    verdicts, r2 = common.validate_traces('Trace_Outcome', slim, heap='12g', batch_events=400000)
+    verdicts, r2 = common.validate_traces('Trace_Outcome', slim, heap='5g', batch_events=150000, parallel=4)
     ncalls = sum(len(t['calls']) for t in alltraces)
     out.add_tlc('trace-validation', r2, traces=len(alltraces), calls=ncalls)
     out.traces += len(alltraces)
